@@ -565,6 +565,36 @@ fn sched_image(g: &Geo, kind: &str) -> ImageSet {
     images::initial_images(g, &[kind]).remove(0)
 }
 
+/// metadata growth racing other operations: the refcount table is relocated (header switch,
+/// old table released) and a short L1 table is relocated while other calls are in flight
+pub fn growth_sched_scenarios() -> Vec<SchedScenario> {
+    let w = |off: u64, len: u64, tag: u32| Op::Write { off, len: len as usize, tag };
+    let (cs, tb) = (512u64, 64 * 512u64);
+    let mut out = vec![];
+    let rt = crate::extra::rt_edge_image();
+    let g = crate::extra::g9_wide(140);
+    let rt_scn: Vec<(&str, Vec<Op>, Vec<Vec<Op>>)> = vec![
+        ("rt-growth-vs-write", vec![], vec![vec![w(8000 * cs, 3 * cs, 0x11)], vec![w(8100 * cs, cs, 0x12)]]),
+        ("rt-growth-vs-flush", vec![w(8000 * cs, cs, 0x51)], vec![vec![w(8010 * cs, 3 * cs, 0x11)], vec![Op::Flush]]),
+        ("rt-growth-vs-discard", vec![], vec![vec![w(8000 * cs, 3 * cs, 0x11)], vec![Op::Discard { off: 0, len: 2 * cs }]]),
+        ("rt-growth-vs-flush-vs-write", vec![w(8000 * cs, cs, 0x51)], vec![vec![w(8010 * cs, 3 * cs, 0x11)], vec![Op::Flush], vec![w(8100 * cs, cs, 0x12)]]),
+    ];
+    for (name, setup, tasks) in rt_scn {
+        out.push(SchedScenario { name: name.into(), img: rt.clone(), cfg: g.cfg_small(), cfg_name: "small".into(), setup, tasks, fused: true });
+    }
+    let l1 = crate::extra::short_l1_image();
+    let g = crate::extra::g9_wide(192);
+    let l1_scn: Vec<(&str, Vec<Op>, Vec<Vec<Op>>)> = vec![
+        ("l1-relocation-vs-write", vec![], vec![vec![w(64 * tb, cs, 0x11)], vec![w(0, cs, 0x12)]]),
+        ("l1-relocation-vs-flush", vec![w(0, cs, 0x51)], vec![vec![w(64 * tb, cs, 0x11)], vec![Op::Flush]]),
+        ("l1-relocation-vs-two-writes", vec![], vec![vec![w(64 * tb, cs, 0x11)], vec![w(130 * tb, cs, 0x12)], vec![w(cs, cs, 0x13)]]),
+    ];
+    for (name, setup, tasks) in l1_scn {
+        out.push(SchedScenario { name: name.into(), img: l1.clone(), cfg: g.cfg_small(), cfg_name: "small".into(), setup, tasks, fused: true });
+    }
+    out
+}
+
 pub struct SchedPlan {
     pub scenarios: Vec<SchedScenario>,
 }
@@ -765,6 +795,8 @@ pub fn sched_family(prop: &str) -> i32 {
         }
         scenarios.extend(unfused);
     }
+    // metadata growth racing other calls (slow executions: 2 MiB images): one of each kind in the quick tier
+    scenarios.extend(growth_sched_scenarios().into_iter().filter(|s| thorough || s.name.ends_with("-vs-flush")));
     if let Ok(f) = std::env::var("QMC_ONLY") {
         scenarios.retain(|s| s.name.contains(&f));
     }
@@ -1026,6 +1058,8 @@ pub fn fault_check() -> i32 {
         vec![
             (images::initial_images(&images::G9, &["shortl1"]).remove(0), images::G9, vec![w(tb, cs, 1), w(2 * tb + cs, cs, 2), w(0, cs, 4), Op::Flush], if thorough { 3 } else { 2 }),
             (crate::extra::short_l1_image(), crate::extra::g9_wide(192), vec![w(tb, cs, 1), w(64 * tb, cs, 2), w(130 * tb, cs, 4), Op::Flush], 2),
+            // refcount-table growth under faults (two free clusters are left under the old table)
+            (crate::extra::rt_edge_image(), crate::extra::g9_wide(140), vec![w(8000 * cs, 3 * cs, 1), w(8010 * cs, cs, 2), Op::Flush], if thorough { 3 } else { 2 }),
         ]
     };
     let mut samples = vec![];
@@ -1467,7 +1501,7 @@ pub fn growth_check() -> i32 {
             sc.relabel = Some("C12".into());
             sc.relabel_all = true;
             sc.full_sweep = full;
-            if oname == "crash" && img.kind == "rb-edge" {
+            if oname == "crash" && (img.kind == "rb-edge" || img.kind == "rt-edge") {
                 sc.crash_continue = 70; // more than one refcount block (64 clusters)
             }
             let lim = BfsLimits { depth: if oname == "crash" { depth.min(3) } else { depth }, max_states: 2_000_000, deadline: deadline_in(secs) };
